@@ -38,6 +38,7 @@ type Behavior struct {
 	UnchokeDelay   time.Duration
 	NeverUnchoke   bool
 	ChokeFlapEvery time.Duration // >0: toggle choke state periodically
+	ChokeFlaps     int           // >0: stop toggling after this many changes (2 = choke once, unchoke, stay unchoked)
 	AllowedFast    []uint32      // allowed-fast messages sent right after the bitfield (fast only)
 
 	// Serving policy.
@@ -647,7 +648,7 @@ func (p *Peer) SetChoke(choke bool) {
 func (p *Peer) flapper() {
 	t := time.NewTicker(p.B.ChokeFlapEvery)
 	defer t.Stop()
-	for {
+	for n := 0; p.B.ChokeFlaps == 0 || n < p.B.ChokeFlaps; n++ {
 		select {
 		case <-t.C:
 			p.mu.Lock()
